@@ -301,6 +301,33 @@ def wide_elements(rng, kind, st, n, missing_p=0.15):
 # --------------------------------------------------------------------------
 # (1) wide arrays against the Coq model
 # --------------------------------------------------------------------------
+# deterministic cases run first on every run (model comparison AND agreement of series / Dask /
+# index): (kind, subtype, elements, name)
+_SQ = [0, 0, 1, 0, 1, 1, 0, 0]
+CORPUS = [
+    # the recorded KNOWN finding dask-raises:uint64-element>=2^63:OverflowError (KNOWN_FINDINGS.txt):
+    # emitted here on every run; bounds / series / index of the same array are compared as usual
+    ('line', 'uint64', [[2**63, 0, 1, 1]], 'uint64-element>=2^63'),
+    ('line', 'uint64', [[2**63 - 1024, 0, 1, 1], None, [2**53 + 2, 7, 2**62, 3]], 'uint64-below-2^63'),
+    # repaired 87da180: the Dask versions for unsigned subtypes of every kind (the Dask example
+    # array of a kind must be constructible in every subtype)
+] + [(kind, st, [el, None], 'dask-example-array:' + st)
+     for st in ('uint8', 'uint16', 'uint32', 'uint64', 'int8')
+     for kind, el in (('point', [1, 2]), ('multipoint', _SQ), ('line', _SQ), ('ring', _SQ), ('multiline', [_SQ]),
+                      ('polygon', [_SQ]), ('multipolygon', [[_SQ]]))] + [
+    # repaired 7cf01a0: an extent of width 0 at |coordinate| >= 2^53 (the +1 widening of the
+    # index' Hilbert range is absorbed): the index builds and reports the array's total_bounds
+    ('point', 'float64', [[2.0**53, 0.0]], 'zero-extent-at-2^53'),
+    ('point', 'float64', [[-2.0**53, 2.0**53], [-2.0**53, 2.0**53]], 'zero-extent-at-2^53'),
+    ('line', 'float64', [[2.0**60, 5.0, 2.0**60, 7.0], [2.0**60, 1.0, 2.0**60, 2.0]], 'zero-width-at-2^60'),
+    ('multipoint', 'int64', [[2**53, 2**53, 2**53, 2**53]], 'zero-extent-at-2^53'),
+    ('polygon', 'float64', [[[1e300, -1e300, 1e300, -1e300, 1e300, -1e300]]], 'zero-extent-at-1e300'),
+    # the witnesses of the two seeded changes that led to this module
+    ('point', 'int32', [[16777217, 3], [5, 20037507], None, [19999999, 19999999]], 'int32-beyond-2^24'),
+    ('line', 'uint32', [[1, 2, 16777217, 20037507], None, [4294967295, 5, 7, 2147483649]], 'uint32-beyond-2^24'),
+    ('point', 'float64', [[-122.98496724190852, 37.05984489207112], [-122.02171459483341, 37.99089120359836]],
+     'lonlat-17-digits'),
+]
 def wide_arrays(rep, tier, agree, la_fn, fa_fn, imports, res_ty):
     rng = rep.rng
     scale = getattr(rep, 'scale', 1)
@@ -308,49 +335,52 @@ def wide_arrays(rep, tier, agree, la_fn, fa_fn, imports, res_ty):
     mult = scale if tier == 'quick' else 15
     batches = {'listarr': ([], [], []), 'fixarr': ([], [], [])}
     nagree = 0
-    for kind in G.KINDS:
-        for st in ALL_SUBTYPES:
-            for r in range(reps_of.get(st, 3) * mult):
-                n = rng.choice([1, 2, 3, 5, 8])
-                cls, els = wide_elements(rng, kind, st, n)
-                try:
-                    arr = G.make_array(kind, els, st)
-                except Exception as e:
-                    rep.count('wide:construct_error:' + type(e).__name__)
-                    continue
-                arr, desc = G.derive(rng, arr, rng.randint(0, 2))
-                if str(arr.data.type) == 'null':
-                    rep.count('null_typed_skipped')
-                    continue
-                try:
-                    rec, k = export_exact(arr, kind)
-                except ValueError:
-                    rep.count('null_typed_skipped')
-                    continue
-                meta = {'kind': kind, 'subtype': st, 'elements': els, 'derivation': desc, 'wide': cls}
-                res = impl_all_exact(arr, k)
-                rep.evaluations += 1
-                rep.count(f'wide:{st}')
-                rep.count(f'wide-pool:{cls}')
-                if any(c is not None and math.isfinite(c) for e in els for c in G.flat_coords(e)):
-                    rep.nontrivial(('wide', kind, st, repr(rec)))
-                if isinstance(res, tuple) and res[0] == 'raised':
-                    rep.violation(f'raises:{kind}:{res[1]}',
-                                  f'{kind}[{st}] bounds/total_bounds raised {res[1]}: {res[2]}',
-                                  {**meta, 'impl': res})
-                    continue
-                if isinstance(res, tuple):
-                    rep.violation(f'bounds-differ:{kind}',
-                                  f'{kind}[{st}] bounds/total_bounds report {res[1]}, which is not a coordinate '
-                                  f'of the array (coordinates drawn from the whole range of {st}: {cls})',
-                                  {**meta, 'impl': res[2]})
-                    continue
-                rep.sample({**meta, 'impl_scaled_by_2^k': res, 'k': k}, cap=6)
-                ty = 'fixarr' if kind == 'point' else 'listarr'
-                batches[ty][0].append(rec); batches[ty][1].append(res); batches[ty][2].append(meta)
-                if r == 0 or (st == 'float64' and r == 1):
-                    nagree += 1
-                    agree(rep, arr, meta)
+    todo = [(kind, st, r, None) for kind in G.KINDS for st in ALL_SUBTYPES
+            for r in range(reps_of.get(st, 3) * mult)]
+    for kind, st, r, fixed in [(c[0], c[1], 0, c) for c in CORPUS] + todo:
+        if fixed is not None:
+            cls, els = 'corpus:' + fixed[3], fixed[2]
+        else:
+            n = rng.choice([1, 2, 3, 5, 8])
+            cls, els = wide_elements(rng, kind, st, n)
+        try:
+            arr = G.make_array(kind, els, st)
+        except Exception as e:
+            rep.count('wide:construct_error:' + type(e).__name__)
+            continue
+        arr, desc = G.derive(rng, arr, 0 if fixed is not None else rng.randint(0, 2))
+        if str(arr.data.type) == 'null':
+            rep.count('null_typed_skipped')
+            continue
+        try:
+            rec, k = export_exact(arr, kind)
+        except ValueError:
+            rep.count('null_typed_skipped')
+            continue
+        meta = {'kind': kind, 'subtype': st, 'elements': els, 'derivation': desc, 'wide': cls}
+        res = impl_all_exact(arr, k)
+        rep.evaluations += 1
+        rep.count(f'wide:{st}')
+        rep.count(f'wide-pool:{cls}')
+        if any(c is not None and math.isfinite(c) for e in els for c in G.flat_coords(e)):
+            rep.nontrivial(('wide', kind, st, repr(rec)))
+        if isinstance(res, tuple) and res[0] == 'raised':
+            rep.violation(f'raises:{kind}:{res[1]}',
+                          f'{kind}[{st}] bounds/total_bounds raised {res[1]}: {res[2]}',
+                          {**meta, 'impl': res})
+            continue
+        if isinstance(res, tuple):
+            rep.violation(f'bounds-differ:{kind}',
+                          f'{kind}[{st}] bounds/total_bounds report {res[1]}, which is not a coordinate '
+                          f'of the array (coordinates drawn from the whole range of {st}: {cls})',
+                          {**meta, 'impl': res[2]})
+            continue
+        rep.sample({**meta, 'impl_scaled_by_2^k': res, 'k': k}, cap=6)
+        ty = 'fixarr' if kind == 'point' else 'listarr'
+        batches[ty][0].append(rec); batches[ty][1].append(res); batches[ty][2].append(meta)
+        if r == 0 or (st == 'float64' and r == 1):
+            nagree += 1
+            agree(rep, arr, meta)
     for ty, fn in (('listarr', la_fn), ('fixarr', fa_fn)):
         cases, ress, metas = batches[ty]
         bad = C.coq_mismatches(imports, fn, ty, res_ty, cases, ress)
@@ -375,13 +405,10 @@ BOX_IMPORTS = 'Model.Num Model.Bounds Model.DaskModel'
 
 
 def dask_raise_signature(kind, st, arr, e, where):
-    """two situations met on the unmodified tree get their own stable signature (reported as
-    findings); anything else is the generic dask-raises:<where>:<exception>"""
+    """one situation met on the unmodified tree has its own stable signature (a recorded KNOWN
+    finding, emitted on every run by a corpus case); anything else is the generic
+    dask-raises:<where>:<exception>"""
     name = type(e).__name__
-    if kind == 'multipolygon' and st.startswith('uint') and name == 'ArrowInvalid' and '-1.0' in str(e):
-        # Dask's meta_nonempty example of a MultiPolygonArray holds -1.0: not convertible to an
-        # unsigned subtype, so every map_partitions (bounds, partition_bounds, total_bounds) raises
-        return 'dask-raises:multipolygon-unsigned:ArrowInvalid'
     if kind != 'point' and st == 'uint64' and name == 'OverflowError':
         with np.errstate(all='ignore'), warnings.catch_warnings():
             warnings.simplefilter('ignore')
